@@ -169,4 +169,101 @@ theorem tieA_set_tx_power_and_ramp_time_1272 (cfg : Sx127x.Config) (hc : cfg.chi
 
 #print axioms tieA_set_tx_power_and_ramp_time_1272
 
+/-! ## register access, one request at a time -/
+
+theorem wr_val (r : Register) : ((Sx127x.wr r).toNat : Int) = Register.write_addr r := by cases r <;> rfl
+theorem rd_val (r : Register) : ((Sx127x.rd r).toNat : Int) = Register.read_addr r := by cases r <;> rfl
+theorem wr_byte (r : Register) : byte (Register.write_addr r) = Sx127x.wr r := rfl
+theorem rd_byte (r : Register) : byte (Register.read_addr r) = Sx127x.rd r := rfl
+
+/-- the generated `read_register` / `write_register` of both units are the model's register accesses -/
+theorem gen_read_1276 (self : Gen.PhyEnc1276.Sx127x) (r : Register) : IsRead127 (Gen.PhyEnc1276.Sx127x.read_register self r) r := by
+  intro c log
+  simp only [Gen.PhyEnc1276.Sx127x.read_register, read_bind_app, ofOpt_some_bind_app, ofOpt_some_app, pure_app, chipDev_fst, chipDev_snd, List.length_cons,
+    List.length_nil, idx_fill_one, toBytes_cons, toBytes_nil, rd_byte, rd_val, Nat.zero_add]
+theorem gen_write_1276 (self : Gen.PhyEnc1276.Sx127x) (r : Register) (v : Int) : IsWrite127 (Gen.PhyEnc1276.Sx127x.write_register self r v) r v := by
+  intro c log
+  simp only [Gen.PhyEnc1276.Sx127x.write_register, write_app, chipDev_snd, toBytes_cons, toBytes_nil, wr_byte, wr_val, Bool.false_eq_true, if_false]
+theorem gen_read_1272 (self : Gen.PhyEnc1272.Sx127x) (r : Register) : IsRead127 (Gen.PhyEnc1272.Sx127x.read_register self r) r := by
+  intro c log
+  simp only [Gen.PhyEnc1272.Sx127x.read_register, read_bind_app, ofOpt_some_bind_app, ofOpt_some_app, pure_app, chipDev_fst, chipDev_snd, List.length_cons,
+    List.length_nil, idx_fill_one, toBytes_cons, toBytes_nil, rd_byte, rd_val, Nat.zero_add]
+theorem gen_write_1272 (self : Gen.PhyEnc1272.Sx127x) (r : Register) (v : Int) : IsWrite127 (Gen.PhyEnc1272.Sx127x.write_register self r v) r v := by
+  intro c log
+  simp only [Gen.PhyEnc1272.Sx127x.write_register, write_app, chipDev_snd, toBytes_cons, toBytes_nil, wr_byte, wr_val, Bool.false_eq_true, if_false]
+
+/-- the pure parts of a generated action between two requests, and the model's `do` blocks in bind-normal form -/
+syntax "tie_norm" "[" Lean.Parser.Tactic.simpLemma,* "]" : tactic
+macro_rules
+  | `(tactic| tie_norm [$ls,*]) => `(tactic| (
+    simp +decide only [bind_assoc_app, pure_bind_app, ofOpt_some_bind_app, ofOpt_none_bind_app, throw_bind_app, panic_bind_app, ite_bind_app, ite_app,
+      pure_app, pure_app', throw_app, Rt.shrC, Rt.shlC, Rt.ITy.bits, Rt.ITy.lo, Rt.ITy.hi, Rt.ITy.signed, Rt.b2i,
+      Model.Phy.pure_eq_ret, Model.Phy.bind_eq, Model.Phy.bind_ret, Model.Phy.bind_fail, prog_bind_assoc, prog_bind_ite,
+      if_true, if_false, Bool.false_eq_true, Bool.true_eq_false, $ls,*]))
+
+/-- `v = u.toNat` for a byte computed on both sides: the `Rt` operations and the `UInt8` operations meet in `Nat` -/
+syntax "tie_val" "[" Lean.Parser.Tactic.simpLemma,* "]" : tactic
+macro_rules
+  | `(tactic| tie_val [$ls,*]) => `(tactic| (
+    simp +decide only [andI_toNat, orI_toNat, andI_lit_r, orI_lit_r, orI_lit_l, andI_lit_l, UInt8.toNat_and, UInt8.toNat_or, UInt8.toNat_ofNat', UInt8.toNat_ofNat,
+      UInt8.reduceToNat, Rt.wrap, Rt.ITy.bits, Rt.ITy.signed, b2u, hi8, lo8, if_true, if_false, Bool.false_eq_true, Nat.reducePow, Nat.reduceMod, Int.reducePow,
+      Nat.reduceMul, Int.reduceMul, Int.reduceMod, Int.reduceSub, Int.reduceToNat, Nat.reduceSub, $ls,*]
+    try rfl))
+
+/-- a read / a write / the last write / a call of a method already tied, on both sides -/
+macro "tie_rd" : tactic => `(tactic| (
+  try tie_norm [if_true]
+  refine tie_read id _ _ (by first | exact gen_read_1276 _ _ | exact gen_read_1272 _ _) _ _ _ _ (fun b c1 log1 => ?_)))
+macro "tie_wr" : tactic => `(tactic| (
+  try tie_norm [if_true]
+  refine tie_write id _ _ _ (by first | exact gen_write_1276 _ _ _ | exact gen_write_1272 _ _ _) _ ?_ _ _ _ _ (fun c1 log1 => ?_)))
+macro "tie_wr_end" : tactic => `(tactic| (
+  try tie_norm [if_true]
+  refine tie_write_end _ _ _ (by first | exact gen_write_1276 _ _ _ | exact gen_write_1272 _ _ _) _ ?_ _ (fun c1 log1 => rfl) _ _))
+macro "tie_call" h:term : tactic => `(tactic| (
+  try tie_norm [if_true]
+  refine tie_bind id id _ _ _ _ _ _ $h (fun _ c1 log1 => ?_)))
+
+/-! ## packet parameters -/
+
+def genPkt76 (p : PacketParams) : Gen.PhyEnc1276.PacketParams :=
+  { preamble_length := p.preambleLength, implicit_header := p.implicitHeader, payload_length := p.payloadLength, crc_on := p.crcOn, iq_inverted := p.iqInverted }
+def genPkt72 (p : PacketParams) : Gen.PhyEnc1272.PacketParams :=
+  { preamble_length := p.preambleLength, implicit_header := p.implicitHeader, payload_length := p.payloadLength, crc_on := p.crcOn, iq_inverted := p.iqInverted }
+
+/-- `Sx1276::set_packet_params` IS the model's variant program: ImplicitHeaderModeOn (RegModemConfig1 bit 0) and
+RxPayloadCrcOn (RegModemConfig2 bit 2) by read-modify-write — every flag, chip content and prefix. -/
+theorem tieA_sx1276_set_packet_params (radio : Gen.PhyEnc1276.Sx127x) (cfg : Sx127x.Config) (hc : cfg.chip = .sx1276)
+    (p : PacketParams) (c : Chip) (log : List Rt.Phy.Ev) :
+    view id (Gen.PhyEnc1276.Sx1276.set_packet_params radio (genPkt76 p) chipDev c log)
+      = denote (Sx127x.variantSetPacketParams cfg p) c log := by
+  obtain ⟨chip, tcxo, boost, rxb⟩ := cfg
+  simp only at hc; subst hc
+  obtain ⟨pre, ih, len, crc, iq⟩ := p
+  simp only [Gen.PhyEnc1276.Sx1276.set_packet_params, Sx127x.variantSetPacketParams, genPkt76]
+  tie_rd
+  tie_wr
+  · cases ih <;> tie_val []
+  tie_rd
+  tie_wr_end
+  · cases crc <;> tie_val []
+
+/-- `Sx1272::set_packet_params`: ImplicitHeaderModeOn (bit 2) and RxPayloadCrcOn (bit 1) of RegModemConfig1 in one
+read-modify-write. -/
+theorem tieA_sx1272_set_packet_params (radio : Gen.PhyEnc1272.Sx127x) (cfg : Sx127x.Config) (hc : cfg.chip = .sx1272)
+    (p : PacketParams) (c : Chip) (log : List Rt.Phy.Ev) :
+    view id (Gen.PhyEnc1272.Sx1272.set_packet_params radio (genPkt72 p) chipDev c log)
+      = denote (Sx127x.variantSetPacketParams cfg p) c log := by
+  obtain ⟨chip, tcxo, boost, rxb⟩ := cfg
+  simp only at hc; subst hc
+  obtain ⟨pre, ih, len, crc, iq⟩ := p
+  simp only [Gen.PhyEnc1272.Sx1272.set_packet_params, Sx127x.variantSetPacketParams, genPkt72]
+  tie_rd
+  tie_wr_end
+  · cases ih <;> cases crc <;> tie_val []
+
+#print axioms tieA_sx1276_set_packet_params
+#print axioms tieA_sx1272_set_packet_params
+
+
 end C13
